@@ -437,7 +437,14 @@ let explore_cases (cls : char) (cases : case list) (oc : out_channel) (limit : i
     end) cases
 
 
-let run_case (oc : out_channel) (c : case) : unit =
+let rec run_case (oc : out_channel) (c : case) : unit =
+  if String.length c.name >= 4 && String.sub c.name 0 4 = "deep" then begin
+    (* structures with thousands of nodes: decided on the implementation by the independent oracle only (the model's
+       unary ids and functional adjacency make it cubic there); every step is reported as exercise-only *)
+    Printf.fprintf oc "case %s\n" c.name;
+    List.iteri (fun si _ -> Printf.fprintf oc "%d exercise-only\n" si) c.steps
+  end else run_case_model oc c
+and run_case_model (oc : out_channel) (c : case) : unit =
   Printf.fprintf oc "case %s\n" c.name;
   let directed = (c.cls = 'D') in
   let step = if directed then step_d keqb else step_u keqb in
